@@ -643,4 +643,136 @@ Proof.
 Qed.
 
 
+
+(* ---- histories ------------------------------------------------------------------------------------------------- *)
+Fixpoint run (p : pool) (ops : list op) : pool :=
+  match ops with [] => p | o :: t => run (pool_of (step c p o)) t end.
+
+Theorem run_inv ops : forall p, PInv p -> PInv (run p ops).
+Proof. induction ops as [|o t IH]; intros p Hp; cbn [run]; [assumption|]. apply IH. apply step_inv. assumption. Qed.
+
+(* what a user observes of a reachable container: size(), empty(), capacity() against the element sequence *)
+Theorem reachable_observables ops k v : get (run init_pool ops) k = Some v ->
+  b_size c (w v) = len (els v) /\ (b_size c (w v) = 0 <-> els v = []) /\
+  len (els v) <= b_capacity c (w v) /\ b_capacity c (w v) <= b_limit c /\ b_limit c <= M.
+Proof. intros H. pose proof (run_inv ops init_pool PInv_init k v H) as [HB HS].
+  pose proof (b_size_cap c Hc (w v) HB). pose proof (cap_le_limit c Hc (w v) HB).
+  split; [assumption|]. split; [|split; [lia|split; [assumption|]]].
+  - rewrite HS. unfold len. destruct (els v); cbn; split; intros; try reflexivity; try discriminate; lia.
+  - unfold b_limit. pose proof Hc as [HM0 HN0]. destruct (fl c); lia.
+Qed.
+
+(* ---- limit errors (C08): an operation that throws leaves every element sequence as it was ------------------------ *)
+Definition single_pass (o : op) : bool :=
+  match o with
+  | CtorRange _ RInp _ | InsertRange _ _ RInp _ | AssignRange _ RInp _ | AppendRange _ RInp _ => true
+  | _ => false
+  end.
+Definition is_ctor (o : op) : bool :=
+  match o with CtorDefault _ | CtorN _ _ | CtorNV _ _ _ | CtorRange _ _ _ | CtorCopy _ _ | CtorMove _ _ | Adopt _ _ _ => true | _ => false end.
+Definition contents (p : pool) (k : nat) : option (list Z) := option_map els (get p k).
+
+Lemma get_set_same p a v : get p a = Some v -> forall k, get (set p a (Some v)) k = get p k.
+Proof. unfold get. revert a. induction p as [|y p IH]; intros a H k.
+  - destruct a; discriminate.
+  - destruct a as [|a], k as [|k]; cbn [set nth] in *; auto. Qed.
+Lemma contents_set_same p a v v' : get p a = Some v -> els v' = els v -> forall k, contents (set p a (Some v')) k = contents p k.
+Proof. unfold contents, get. revert a. induction p as [|y p IH]; intros a H E k.
+  - destruct a; discriminate.
+  - destruct a as [|a], k as [|k]; cbn [set nth] in *; auto. rewrite H. cbn. rewrite E. reflexivity. Qed.
+
+Lemma finish_threw p a r ok v n els' e p' ev : get p a = Some v -> ROk_post c v n els' r -> ok <> RThrew e ->
+  finish p a r ok = (p', RThrew e, ev) -> (forall k, get p' k = get p k) /\ ev = [] /\ e = lim_exn c /\ b_limit c < n.
+Proof. intros Hg Hr Hok H. unfold finish, ROk_post in *. destruct r as [[v' ev']|[[e' v'] ev']].
+  - inversion H; subst. congruence.
+  - destruct Hr as (-> & -> & L & ->). inversion H; subst. split; [apply get_set_same; assumption|]. repeat split; assumption. Qed.
+
+Ltac close_threw P Hsame :=
+  match goal with
+  | H : finish ?p ?a ?r ?ok = (?p', RThrew ?e, ?ev), Ega : get ?p ?a = Some ?v |- _ =>
+      let A := fresh "A" in let B := fresh "B" in let C := fresh "C" in
+      destruct (finish_threw p a r ok v _ _ e p' ev Ega P ltac:(discriminate) H) as (A & B & C & _);
+      split; [apply Hsame; assumption|]; split; [split; assumption|assumption]
+  end.
+
+Theorem step_threw p o p' e ev : PInv p -> step c p o = (p', RThrew e, ev) -> single_pass o = false -> is_ctor o = false ->
+  (forall k, contents p' k = contents p k) /\
+  (match o with Swap2 _ _ => True | _ => (forall k, get p' k = get p k) /\ ev = [] end) /\
+  e = match o with At _ _ => OutOfRange | _ => lim_exn c end.
+Proof.
+  intros Hp H Hsp Hct. unfold step in H.
+  assert (Hsame : forall (q : pool), (forall k, get q k = get p k) -> forall k, contents q k = contents p k)
+    by (intros q Hq k; unfold contents; rewrite Hq; reflexivity).
+  destruct o; try discriminate Hct; unfold on in H; cbv zeta in H;
+    repeat match type of H with
+    | context [Nat.eqb ?a ?b] => destruct (Nat.eqb a b) eqn:?; cbn [orb] in H; try discriminate H
+    end;
+    try match type of H with
+    | context [get p ?a] => destruct (get p a) as [v|] eqn:Ega; try discriminate H
+    end;
+    try match type of H with
+    | context [get p ?b] => destruct (get p b) as [vb|] eqn:Egb; try discriminate H
+    end;
+    try (pose proof (Hp _ _ Ega) as Hv; pose proof (len_nonneg (els v)); pose proof Hv as [HvB HvS]; pose proof (b_size_cap c Hc _ HvB));
+    try (pose proof (Hp _ _ Egb) as Hvb; pose proof (len_nonneg (els vb)); pose proof Hvb as [HvbB HvbS]).
+  - (* PushBack *) destruct (arg_ok (els v) g); [|discriminate H].
+    pose proof (grow_incr_ok c Hc v (els v ++ [argval (els v) g]) Hv ltac:(rewrite len_app; reflexivity)) as P. close_threw P Hsame.
+  - (* PushBackRv *) destruct (arg_ok (els v) g); [|discriminate H].
+    pose proof (one_incr_ok c Hc v (after_move (is_tc c) (els v) g ++ [argval (els v) g]) Hv (arg_len _ _ _)) as P. close_threw P Hsame.
+  - (* EmplaceBack *) destruct (arg_ok (els v) g); [|discriminate H].
+    pose proof (one_incr_ok c Hc v (els v ++ [argval (els v) g]) Hv ltac:(rewrite len_app; reflexivity)) as P. close_threw P Hsame.
+  - (* Insert *) destruct ((0 <=? p0) && (p0 <=? len (els v)) && arg_ok (els v) g) eqn:G; [|discriminate H].
+    pose proof (grow_incr_ok c Hc v (insert_list p0 [argval (els v) g] (els v)) Hv ltac:(rewrite len_insert_list by lia; reflexivity)) as P. close_threw P Hsame.
+  - (* InsertRv *) destruct ((0 <=? p0) && (p0 <=? len (els v)) && arg_ok (els v) g) eqn:G; [|discriminate H].
+    pose proof (one_incr_ok c Hc v (insert_list p0 [argval (els v) g] (after_move (is_tc c) (els v) g)) Hv ltac:(rewrite len_insert_list by (rewrite len_after_move; lia); rewrite len_after_move; reflexivity)) as P. close_threw P Hsame.
+  - (* Emplace *) destruct ((0 <=? p0) && (p0 <=? len (els v)) && arg_ok (els v) g) eqn:G; [|discriminate H].
+    pose proof (one_incr_ok c Hc v (insert_list p0 [argval (els v) g] (els v)) Hv ltac:(rewrite len_insert_list by lia; reflexivity)) as P. close_threw P Hsame.
+  - (* InsertN *) destruct ((0 <=? p0) && (p0 <=? len (els v)) && (0 <=? n) && arg_ok (els v) g) eqn:G; [|discriminate H].
+    destruct (0 <? n) eqn:Gn; [|discriminate H].
+    pose proof (grow_set_ok c Hc v true (b_size c (w v) + n) (insert_list p0 (rep n (argval (els v) g)) (els v)) Hv ltac:(lia) ltac:(rewrite len_insert_list by lia; rewrite len_rep by lia; lia) ltac:(discriminate)) as P. close_threw P Hsame.
+  - (* InsertRange *) destruct ((0 <=? p0) && (p0 <=? len (els v))) eqn:G; [|discriminate H]. destruct k; [|discriminate Hsp].
+    destruct (0 <? len vs) eqn:Gn; [|discriminate H].
+    pose proof (grow_set_ok c Hc v true (b_size c (w v) + len vs) (insert_list p0 vs (els v)) Hv ltac:(lia) ltac:(rewrite len_insert_list by lia; lia) ltac:(discriminate)) as P. close_threw P Hsame.
+  - (* Erase *) destruct ((0 <=? p0) && (p0 <? len (els v))); discriminate H.
+  - (* EraseRange *) destruct ((0 <=? p0) && (p0 <=? q) && (q <=? len (els v))); discriminate H.
+  - (* PopBack *) destruct (0 <? len (els v)); discriminate H.
+  - (* PopBackVal *) destruct (0 <? len (els v)); discriminate H.
+  - (* Resize *) destruct (0 <=? n) eqn:G; [|discriminate H].
+    pose proof (grow_set_ok c Hc v (b_size c (w v) <? n) n (take n (els v) ++ rep (n - len (els v)) 0) Hv ltac:(lia) ltac:(rewrite len_app, len_take, len_rep' by lia; lia) ltac:(intros; lia)) as P. close_threw P Hsame.
+  - (* ResizeV *) destruct ((0 <=? n) && arg_ok (els v) g) eqn:G; [|discriminate H].
+    pose proof (grow_set_ok c Hc v (b_size c (w v) <? n) n (take n (els v) ++ rep (n - len (els v)) (argval (els v) g)) Hv ltac:(lia) ltac:(rewrite len_app, len_take, len_rep' by lia; lia) ltac:(intros; lia)) as P. close_threw P Hsame.
+  - (* AssignN *) destruct ((0 <=? n) && arg_ok (els v) g) eqn:G; [|discriminate H].
+    pose proof (grow_set_ok c Hc v (b_size c (w v) <? n) n (rep n (argval (els v) g)) Hv ltac:(lia) ltac:(apply len_rep; lia) ltac:(intros; lia)) as P. close_threw P Hsame.
+  - (* AssignRange *) destruct k; [|discriminate Hsp]. unfold assign_range in H.
+    pose proof (grow_set_ok c Hc v (b_size c (w v) <? len vs) (len vs) vs Hv (len_nonneg _) eq_refl ltac:(intros; lia)) as P. close_threw P Hsame.
+  - (* Reserve *) destruct ((0 <=? n) && (n <=? M)) eqn:G; [|discriminate H].
+    destruct (fl c) eqn:E.
+    + destruct (b_capacity c (w v) <? n) eqn:Gc; [|discriminate H].
+      pose proof (b_grow_ok c Hc (w v) n true HvB ltac:(lia) ltac:(intros; lia) ltac:(congruence)) as GR.
+      destruct (b_grow c (w v) n true) as [[w1 ev1]|]; [discriminate H|]. destruct GR as [_ X]. discriminate X.
+    + destruct (b_capacity c (w v) <? n) eqn:Gc; [|discriminate H].
+      pose proof (b_grow_ok c Hc (w v) n true HvB ltac:(lia) ltac:(intros; lia) ltac:(congruence)) as GR.
+      destruct (b_grow c (w v) n true) as [[w1 ev1]|]; [discriminate H|]. destruct GR as [_ X]. discriminate X.
+    + destruct (exc_check n (b_capacity c (w v))); inversion H; subst.
+      split; [intros; reflexivity|]. split; [split; [intros; reflexivity|reflexivity]|]. unfold lim_exn. rewrite E. reflexivity.
+  - (* Shrink *) destruct (b_shrink c (w v)); discriminate H.
+  - (* AppendN *) destruct (0 <=? n) eqn:G; [|discriminate H].
+    pose proof (grow_set_ok c Hc v true (b_size c (w v) + n) (els v ++ rep n 0) Hv ltac:(lia) ltac:(rewrite len_app, len_rep by lia; lia) ltac:(discriminate)) as P. close_threw P Hsame.
+  - (* AppendNV *) destruct ((0 <=? n) && arg_ok (els v) g) eqn:G; [|discriminate H].
+    pose proof (grow_set_ok c Hc v true (b_size c (w v) + n) (els v ++ rep n (argval (els v) g)) Hv ltac:(lia) ltac:(rewrite len_app, len_rep by lia; lia) ltac:(discriminate)) as P. close_threw P Hsame.
+  - (* AppendRange *) destruct k; [|discriminate Hsp]. unfold append_range in H. pose proof (len_nonneg vs).
+    pose proof (grow_set_ok c Hc v true (b_size c (w v) + len vs) (els v ++ vs) Hv ltac:(lia) ltac:(rewrite len_app; lia) ltac:(discriminate)) as P. close_threw P Hsame.
+  - (* CopyAssign *) unfold assign_range in H.
+    pose proof (grow_set_ok c Hc v (b_size c (w v) <? len (els vb)) (len (els vb)) (els vb) Hv ltac:(lia) eq_refl ltac:(intros; lia)) as P. close_threw P Hsame.
+  - (* MoveAssign *) destruct (b_move_assign c (w v) (w vb)) as [[? ?] ?]; discriminate H.
+  - (* Swap *) destruct (b_swap c (w v) (w vb)); discriminate H.
+  - (* Swap2 *) pose proof (b_swap2_ok (w v) (w vb) HvB HvbB) as SW.
+    destruct (b_swap2 c (w v) (w vb)) as [[[wt wo] ev0]|e0]; [discriminate H|]. subst e0.
+    destruct (adjust c (w v) (b_size c (w vb))) as [[w1 ev1]|e1]; inversion H; subst.
+    + split; [apply (contents_set_same p a v); [assumption|reflexivity]|]. split; [exact I|reflexivity].
+    + split; [intros; reflexivity|]. split; [exact I|reflexivity].
+  - (* At *) destruct ((0 <=? i) && (i <=? M)); [|discriminate H]. destruct (i <? b_size c (w v)); inversion H; subst.
+    split; [intros; reflexivity|]. split; [split; [intros; reflexivity|reflexivity]|reflexivity].
+  - (* Relocate *) destruct (container_tr c); discriminate H.
+Qed.
 End Step.
